@@ -5,7 +5,7 @@ FH = 'src/forest.h'
 UH = 'src/unpacked_node.h'
 MT = 'src/forests/mtmdd.cc'
 def job(name, props, **kw):
-    d = dict(name=name, entry='h_' + name, props=list(props), plain=True, kind='bounded', unwind=19,
+    d = dict(name=name, entry='h_' + name, props=list(props), plain=True, kind='bounded', unwind=14, unwindset=['forest__swapAdjacentVariables.%d:4' % k for k in range(11)],
              flags=['--no-standard-checks', '--bounds-check', '--pointer-check', '--div-by-zero-check', '--unwinding-assertions'],
              loop_contracts=False, timeout=1800)
     d.update(kw)
@@ -60,11 +60,12 @@ UNIT = {
               'unique table enumeration (getNumEntries/getItems list exactly the nodes labelled with the level of the variable); '
               'unpacked_node::newFromNode/newWritable/Recycle on heap copies; createReducedNode(in, nb) stores the node as written (no reduction, no duplicate search: '
               'the real one is under contract in U-reduce); modifyReducedNodeInPlace overwrites the stored node; variable_order::exchange swaps the two variables'],
-    'assumptions': ['BOUNDED: at most SW_NODES stored nodes before the swap, variable sizes 2..SW_MAXSZ, one adjacent pair of levels; not counted as proved',
+    'assumptions': ['BOUNDED: at most SW_NODES stored nodes before the swap (2 in the quick tier, 3 in the thorough tier), variable sizes 2..SW_MAXSZ, one adjacent pair of levels; not counted as proved',
                     'at entry every node labelled level+1 has children labelled <= level and every node labelled level has children labelled < level (C02 at entry)'],
     'unverified_surroundings': {'C13': ['reordering/*.h schedules', 'forests/mtmxd.cc swaps', 'forest.cc reorderVariables, removeAllComputeTableEntries'],
                                 'C02': ['forests/mtmxd.cc swaps']},
     'jobs': [
-        job('swap_adjacent_mdd', ['C02', 'C13']),
+        job('swap_adjacent_mdd_2', ['C02', 'C13'], defines=['SW_NODES=2'], entry='h_swap_adjacent_mdd'),
+        job('swap_adjacent_mdd', ['C02', 'C13'], tier='thorough', timeout=7200),
     ],
 }
